@@ -182,7 +182,7 @@ def run(ctx):
     tbad = judge_threads(threads)
     if tbad:
         fails.append((("threads", trounds, tthreads), tbad, threads, tres["stderr"][-800:]))
-    for _attempt in range(3):          # the scenario must really have hit the window (the interrupt surfaced out of ensure_running)
+    for _attempt in range(6):          # the scenario must really have hit the window (the interrupt surfaced out of ensure_running)
         ires = runner.run_script(INTERRUPTED, vlib.REPO, timeout=120, spare_trackers=True)
         igot = runner.last_json(ires)
         if igot is None or igot.get("interrupt") == "KeyboardInterrupt":
